@@ -228,6 +228,20 @@ theorem inv_step {w : World} (h : Inv w) (a : Act) : Inv (step w a) := by
             · exact inv_toBackoff h
             · exact ⟨h.sorted, h.bound, h.since_le, h.list_le, h.cover, h.seen, h.resume⟩
       · exact h
+  | retry =>
+      simp only [step]
+      split
+      · refine ⟨h.sorted, h.bound, h.since_le, h.list_le, ?_, ?_, ?_⟩
+        · intro e he hle
+          exact (h.cover e he hle).mono (Nat.le_refl _) (fun o ho => List.mem_cons_of_mem _ ho)
+        · simpa [emit, lastSeen] using h.seen
+        · simpa [emit, resumeOK] using h.resume
+      · refine ⟨h.sorted, h.bound, h.since_le, h.list_le, ?_, ?_, ?_⟩
+        · intro e he hle
+          exact (h.cover e he hle).mono (Nat.le_refl _) (fun o ho => List.mem_cons_of_mem _ ho)
+        · simpa [emit, lastSeen] using h.seen
+        · simp [emit, resumeOK, h.seen, h.resume]
+      · exact h
   | failReq k =>
       simp only [step]
       split
@@ -314,10 +328,6 @@ theorem inv_reach {w : World} (h : Reach w) : Inv w := by
 
 /-! ### quiet states: the pause has been noticed (or there is no stream to notice it) -/
 
-/-- The pause-waiter of the current `streaming_block` is done, or the client is between two blocks. -/
-def Quiet (w : World) : Prop :=
-  w.pauseSeen = true ∨ w.phase = .backoff ∨ w.phase = .blocked ∨ w.phase = .failed
-
 theorem oldestReq_append (xs ys : List Out) :
     oldestReq (xs ++ ys) = match oldestReq ys with
       | some r => some r
@@ -345,6 +355,8 @@ theorem quiet_step_paused {w : World} (hq : Quiet w) (hp : w.paused = true) (a :
   case pause => (first | exact ⟨hq, rfl⟩ | exact ⟨hq, trivial⟩ | simpa using hq)
   case resume => (first | exact ⟨hq, rfl⟩ | exact ⟨hq, trivial⟩ | simpa using hq)
   case unknownType => (first | exact ⟨hq, rfl⟩ | exact ⟨hq, trivial⟩ | simpa using hq)
+  case retry =>
+      split <;> simp_all [emit, reqCount_cons, Out.isReq]
   case notice =>
       simp only [hp, if_true]
       split <;> simp_all [toBackoff]
@@ -454,6 +466,8 @@ theorem firstIsList_step {w : World} (h : FirstIsList w) (a : Act) : FirstIsList
     case pause => exact Or.inr ⟨hn, hq⟩
     case resume => exact Or.inr ⟨hn, hq⟩
     case unknownType => exact Or.inr ⟨hn, hq⟩
+    case retry =>
+        split <;> right <;> simp_all [emit, oldestReq, Out.isReq]
     case notice =>
         split
         · split <;> simp_all [toBackoff]
